@@ -152,7 +152,7 @@ def sweep(run, pid):
     rng = run.rng
     stats = collections.Counter()
     mism = []
-    quick = run.tier == "quick"
+    quick = run.depth == "quick"
     nproj = 3 if quick else 12
     nrand = 120 if quick else 1200
     depth = 2
